@@ -363,7 +363,7 @@ def run(rec, hub, tier, seed, shard, nshards, budget):
     rec.require(M, 50)
     rec.require(MFILES, 20)
     rec.require(MDEF, 10)
-    n = 120 if tier == "quick" else 700
+    n = 200 if tier == "quick" else 2000
     tmpdir = tempfile.mkdtemp(prefix="vmon-c19-")
     try:
         for kk in range(n):
